@@ -81,3 +81,9 @@ Theorem C13_follows_calls : forall V m fuel bbs starts d ev,
   gen V m fuel bbs starts = Ok (d, ev) -> arrows ev = ref_entries m fuel starts (make_bbs bbs) starts.
 Proof. exact seq_follows_calls. Qed.
 Print Assumptions C13_follows_calls.
+
+(* ---- every participant used in the body is declared in the head, and no participant is declared twice ---- *)
+Theorem C13_declared_once : forall V m fuel bbs starts d ev,
+  gen V m fuel bbs starts = Ok (d, ev) -> NoDup (map fst d) /\ forall x, In x (parts ev) -> In x (map fst d).
+Proof. exact seq_declared_once. Qed.
+Print Assumptions C13_declared_once.
